@@ -61,7 +61,7 @@ def run_model(model, top):
             k, _, v = ln.partition(' ')
             if k in info:
                 info[k].append(bytes.fromhex(v).decode('utf-8', 'replace'))
-            elif k in ('files', 'bytes'):
+            elif k in ('files', 'bytes', 'starved', 'directives', 'unresolved'):
                 info[k] = int(v)
         return open(tmp, 'rb').read(), info, ''
     finally:
@@ -421,6 +421,46 @@ def behaviour_leg(chk):
     return n_cmp
 
 
+def two_tu_leg(chk, repo):
+    """a header-only library must be usable from more than one translation unit of a program: two TUs that each
+    include qtlogger.h are linked into one program and run"""
+    d = tempfile.mkdtemp(prefix='c20_2tu_')
+    try:
+        open(os.path.join(d, 'a.cpp'), 'w').write('#include "qtlogger.h"\nint f() { QtLogger::Logger *l = QtLogger::Logger::instance(); l->flush(); return l ? 1 : 0; }\n')
+        open(os.path.join(d, 'b.cpp'), 'w').write('#include "qtlogger.h"\nint f();\nint main() { QtLogger::Logger *l = QtLogger::Logger::instance(); return (l && f() == 1) ? 0 : 1; }\n')
+        cf = qt_cflags()
+        with concurrent.futures.ThreadPoolExecutor(max_workers=2) as ex:
+            rs = list(ex.map(lambda n: syntax_check(['-I' + repo] + cf + [os.path.join(d, n + '.cpp')], os.path.join(d, n + '.o')), ['a', 'b']))
+        if not all(ok for ok, _ in rs):
+            chk.cov['two_translation_units'] = 'does not compile: ' + next(e for ok, e in rs if not ok)
+            chk.broke('the two-translation-unit probe does not compile: ' + chk.cov['two_translation_units'], {'kind': 'two-tu-compile'})
+            return 1
+        libs = vlib.sh('pkg-config --libs Qt5Core')[1].split()
+        rc, so, se = vlib.sh(['g++', '-o', os.path.join(d, 'prog'), os.path.join(d, 'a.o'), os.path.join(d, 'b.o')] + libs + ['-lpthread'], timeout=300)
+        if rc != 0:
+            multi = re.findall(r"multiple definition of [`'](.+?)'", se)
+            syms = []
+            for m in multi:
+                dm = vlib.sh(['c++filt', m])[1].strip() or m
+                if dm not in syms:
+                    syms.append(dm)
+            first = syms[0] if syms else (se.strip().splitlines() or ['link failed'])[0][:300]
+            chk.cov['two_translation_units'] = 'link fails: ' + first
+            chk.fail('a program with two translation units that both include qtlogger.h does not link: multiple definition of %s%s'
+                     % (first, (' (and %d more: %s)' % (len(syms) - 1, ', '.join(syms[1:4]))) if len(syms) > 1 else ''),
+                     {'kind': 'header-not-usable-from-two-translation-units', 'symbol': first, 'all_multiply_defined': syms[:20],
+                      'how': 'a.cpp: #include "qtlogger.h" / int f(){...};  b.cpp: #include "qtlogger.h" / int f(); int main(){...};  g++ -c a.cpp b.cpp; g++ a.o b.o -lQt5Core'},
+                     kind='header-not-usable-from-two-translation-units')
+            return 1
+        rc, so, se = vlib.sh([os.path.join(d, 'prog')], timeout=60)
+        chk.cov['two_translation_units'] = 'links and runs' if rc == 0 else 'links, exit status %s' % rc
+        if rc != 0:
+            chk.broke('the two-translation-unit program links but exits with %s' % rc, {'kind': 'two-tu-run', 'rc': rc, 'stderr': se[-300:]})
+        return 1
+    finally:
+        shutil.rmtree(d, ignore_errors=True)
+
+
 def configuration_leg(chk, repo, all_sources):
     """for the configuration without feature macros and for every single feature macro: the single header
     alone and the library sources must both compile or both fail (a feature whose system headers are not
@@ -478,6 +518,16 @@ def configuration_leg(chk, repo, all_sources):
             if not hobj or not os.path.exists(hobj):
                 continue
             hs = defined_symbols(hobj)
+            # every function/object the header TU defines must be weak/COMDAT or local, never a strong global
+            # definition (two translation units including the header would collide at link time)
+            strong = sorted(defined_symbols(hobj, 'TDBRGSC'))
+            if strong and 'strong' not in sym:
+                sym['strong'] = strong[:20]
+                chk.fail('qtlogger.h defines %s as a strong (non-inline) global symbol%s: a second translation unit including the header cannot be linked'
+                         % (strong[0], (' (and %d more)' % (len(strong) - 1)) if len(strong) > 1 else ''),
+                         {'kind': 'header-not-usable-from-two-translation-units', 'symbol': strong[0], 'all_strong_symbols': strong[:20], 'configuration': cfgname,
+                          'how': 'g++ -c -fkeep-inline-functions user.cpp (#include "qtlogger.h"); nm -C --defined-only user.o | grep " T .*QtLogger::"'},
+                         kind='header-not-usable-from-two-translation-units')
             miss = []
             nlib = 0
             for lo, f in lst:
@@ -486,7 +536,7 @@ def configuration_leg(chk, repo, all_sources):
                 ls = defined_symbols(lo, 'Tt')
                 nlib += len(ls)
                 miss += [(os.path.relpath(f, repo) if os.path.isabs(f) else 'src/qtlogger/' + f, x) for x in sorted(ls - hs)]
-            sym[cfgname] = {'library_function_symbols': nlib, 'defined_by_header_tu': nlib - len(miss), 'header_symbols': len(hs)}
+            sym[cfgname] = {'strong_global_definitions_in_header_tu': len(strong), 'library_function_symbols': nlib, 'defined_by_header_tu': nlib - len(miss), 'header_symbols': len(hs)}
             if miss:
                 f0, s0 = miss[0]
                 chk.fail('with %s the header defines fewer functions than the library build: %s (from %s) is defined by the library objects but not by a '
@@ -662,6 +712,11 @@ def run():
         if dup_emitted:
             chk.broke('a file body is emitted twice on the current tree: %s (a root source is included by another file: %s)' % (dup_emitted, roots_included),
                       {'kind': 'emitted-twice', 'files': dup_emitted, 'roots_included': roots_included})
+        chk.cov['hypothesis_of_C20_included_once'] = {'no_root_source_in_include_set': not roots_included, 'emitted_bodies_distinct': not dup_emitted,
+                                                      'directives_met': info.get('directives'), 'kept_verbatim_unresolved': info.get('unresolved'),
+                                                      'fuel_ran_out': bool(info.get('starved'))}
+        if info.get('starved'):
+            chk.broke('the extracted model reports that its nesting fuel ran out although C20_fuel_sufficient excludes it', {'kind': 'model-starved'})
         samples.append({'tree': 'current /repo working tree', 'files_loaded': info.get('files'), 'root_sources': len(info.get('source', [])),
                         'files_emitted': len(emitted), 'included_set': len(info.get('included', [])), 'header_bytes': len(committed),
                         'generator_equals_header': gen == committed, 'model_equals_header': mod == committed, 'model_equals_generator': gen == mod,
@@ -697,10 +752,11 @@ def run():
     checked += 1 if multi_include_leg(chk, repo) else 0
     checked += layout_leg(chk, repo)
     # the two expensive legs run side by side (8 compiler processes + make -j8)
-    with concurrent.futures.ThreadPoolExecutor(max_workers=2) as ex2:
+    with concurrent.futures.ThreadPoolExecutor(max_workers=3) as ex2:
         f_b = ex2.submit(behaviour_leg, chk)
+        f_t = ex2.submit(two_tu_leg, chk, repo)
         f_c = ex2.submit(configuration_leg, chk, repo, thorough)
-        checked += f_b.result()
+        checked += f_b.result() + f_t.result()
         n_cfg = f_c.result()
     checked += n_cfg
     if thorough:
